@@ -58,7 +58,7 @@ def gen_cases(ctx):
             order = rng.sample(TOKENS, len(TOKENS))
         c.update(kind="twin", order=order,
                  builder=rng.choice(["disjunctive", "agent_task", "with_jobs", "complete"]),
-                 h1=rng.choice(["partial", "partial", "complete", "rejected", "one", "none"]),
+                 h1=rng.choice(["partial", "partial", "complete", "rejected", "one", "none", "solver"]),
                  updater_opts=rng.choice([{}, {}, {"remove_completed_machine_nodes": False},
                                           {"remove_completed_job_nodes": False}]),
                  late=rng.random() < 0.3,
@@ -141,7 +141,15 @@ def run_twin(ctx, case):
     build_observers(ctx, B.d, case)
     # ---- h1 on A
     n1 = {"partial": rng.randint(1, max(1, A.r.num_ops - 1)), "complete": A.r.num_ops,
-          "rejected": rng.randint(1, A.r.num_ops), "one": 1, "none": 0}[case["h1"]]
+          "rejected": rng.randint(1, A.r.num_ops), "one": 1, "none": 0, "solver": 0}[case["h1"]]
+    if case["h1"] == "solver":
+        # the first episode was produced by a rule solver that was handed this dispatcher
+        from job_shop_lib.dispatching.rules import DispatchingRuleSolver
+        if late and not A.d.subscribers:
+            build_observers(ctx, A.d, case)
+        DispatchingRuleSolver(rng.choice(["most_work_remaining", "shortest_processing_time"])).solve(
+            A.instance, A.d)
+        ctx.count("first_episodes_produced_by_a_rule_solver")
     late_at = rng.randint(1, max(1, min(n1, A.r.num_ops))) if late else None
     for k in range(min(n1, A.r.num_ops)):
         if late and k == late_at - 1 + 0 and not A.d.subscribers and k > 0:
@@ -380,17 +388,28 @@ def run_multi_env(ctx, case):
                           _snap.graph_state(env.job_shop_graph)))
         return trace
 
-    def build():
+    def build(**kw):
         g = GeneralInstanceGenerator(num_jobs=(2, 4), num_machines=(2, 3), duration_range=(1, 9),
                                      seed=case["seed"])
-        return MultiJobShopGraphEnv(g, [DispatcherObserverConfig(t) for t in case["features"]])
+        return MultiJobShopGraphEnv(g, [DispatcherObserverConfig(t) for t in case["features"]], **kw)
 
+    new_filter = None
+    if case["seed"] % 3 == 0:
+        # the env is reconfigured through its filter setter after the first episode: the next
+        # episode is that of an env constructed with this filter
+        from job_shop_lib.dispatching import ready_operations_filter_factory
+        new_filter = ready_operations_filter_factory(
+            random.Random(case["seed"]).choice(["non_idle_machines", "non_immediate_machines",
+                                                "non_immediate_operations"]))
+        ctx.count("multi_env_reconfigured_through_the_filter_setter")
     X = build()
     X.reset(); play(X, random.Random(1))
+    if new_filter is not None:
+        X.ready_operations_filter = new_filter
     obs2, _ = X.reset()
     tX = [_snap.obs_state(obs2)] + play(X, random.Random(2))
     instX = [[(tuple(o.machines), o.duration) for o in j] for j in X.instance.jobs]
-    Y = build()
+    Y = build(**({} if new_filter is None else {"ready_operations_filter": new_filter}))
     Y.instance_generator.generate()      # consume the draw of X's first episode
     obs1, _ = Y.reset()
     instY = [[(tuple(o.machines), o.duration) for o in j] for j in Y.instance.jobs]
